@@ -61,8 +61,8 @@ Definition as_value (ty : Z) (t : tree) : option value :=
                 else if Z.eqb ty 4 then Some (VBool b) else None
     | None => None
     end
-  | L [I 4%Z; L [tk; tt]] =>
-    match as_nkind tk, as_str tt with
+  | L [I 4%Z; L [tk; tx]] =>
+    match as_nkind tk, as_str tx with
     | Some k, Some text => if Z.eqb ty 5 || Z.eqb ty 6 then Some (VNum k text) else None
     | _, _ => None
     end
